@@ -43,15 +43,10 @@ Definition remove_particle (tree keep : bool) (nact : Z) (ps : list P) (index : 
   else if tree then
     (match nth_error ps k with Some p => upd ps k (flag p) | None => ps end, nact, true)
   else
-    let n' := (length ps - 1)%nat in                                  (* r->N-- *)
-    (* if(index<r->N_active){ r->N_active--; particles[index] = particles[r->N_active]; index = r->N_active; } *)
-    let '(ps1, k1, nact1) :=
-      if index <? nact then
-        let na := nact - 1 in
-        (match nth_error ps (Z.to_nat na) with Some q => upd ps k q | None => ps end, Z.to_nat na, na)
-      else (ps, k, nact) in
-    (* particles[index] = particles[r->N] *)
-    (firstn n' (match nth_error ps1 n' with Some q => upd ps1 k1 q | None => ps1 end), nact1, true).
+    let n' := (length ps - 1)%nat in                                  (* r->N-- ; particles[index] = particles[r->N] *)
+    (firstn n' (match nth_error ps n' with Some q => upd ps k q | None => ps end),
+     (if nact >? Z.of_nat n' then Z.of_nat n' else nact),             (* if(r->N_active>(int)r->N) r->N_active = r->N; *)
+     true).
 
 (* "Skip collisions which involve the removed particle" *)
 Definition tomb_if (rem : Z) (e : entry) : entry :=
